@@ -22,7 +22,7 @@ let beh_of s = fst (parse_beh (split ',' s))
 let rs_of_int i = match rs_of_code (zi i) with Some s -> s | None -> failwith "runstate"
 
 let parse_cfg (items : ostring list) : econfig =
-  let steps = ref [] and cbs = ref [] and tos = ref [] and hooks = ref [] and del = ref 0 and scheds = ref [] in
+  let steps = ref [] and cbs = ref [] and tos = ref [] and hooks = ref [] and del = ref 0 and scheds = ref [] and conns = ref [] in
   let opt = Hashtbl.create 8 in
   List.iter (fun (k, v) -> Hashtbl.replace opt k v) ["dpar", 0; "dpause", 0; "retry", -1; "lim", 1000; "bo", 0; "inst", 1; "stamp", 0];
   List.iter (fun it ->
@@ -33,12 +33,13 @@ let parse_cfg (items : ostring list) : econfig =
     | ["T"; s; dur; b; d; pause] ->
       tos := { to_status = zi (ios s); to_dur = zi (ios dur); to_beh = beh_of b; to_dests = ints d; to_pause = zi (ios pause) } :: !tos
     | ["H"; st; k] -> hooks := (rs_of_int (ios st), nat_of_int (ios k)) :: !hooks
+    | ["K"; cid; k; par] -> conns := { cn_id = n_of_int (ios cid); cn_fail = nat_of_int (ios k); cn_par = zi (ios par) } :: !conns
     | ["D"; m] -> del := ios m
     | ["Z"; fid; spec; seed; filt] -> scheds := { sd_fid = n_of_int (ios fid); sd_spec = zi (ios spec); sd_seed = zi (ios seed); sd_filter = zi (ios filt) } :: !scheds
     | ["O"; kvs] -> List.iter (fun kv -> match split '=' kv with [k; v] -> Hashtbl.replace opt k (ios v) | _ -> failwith "opt") (split ',' kvs)
     | _ -> failwith ("program item " ^ it)) items;
   let o k = zi (Hashtbl.find opt k) in
-  { ec_steps = List.rev !steps; ec_cbs = List.rev !cbs; ec_tos = List.rev !tos; ec_hooks = List.rev !hooks; ec_scheds = List.rev !scheds; ec_del = zi !del;
+  { ec_steps = List.rev !steps; ec_cbs = List.rev !cbs; ec_tos = List.rev !tos; ec_hooks = List.rev !hooks; ec_scheds = List.rev !scheds; ec_conns = List.rev !conns; ec_del = zi !del;
     ec_dpar = o "dpar"; ec_dpause = o "dpause"; ec_retry = o "retry"; ec_limit = o "lim"; ec_backoff = o "bo"; ec_inst = o "inst";
     ec_stamp = (Hashtbl.find opt "stamp" <> 0) }
 
@@ -51,6 +52,7 @@ let unit_of (u : ostring) : eunit =
   | 'p' -> EPoller (zi (ios rest))
   | 'i' -> EInserter (zi (ios rest))
   | 's' -> (match split '.' rest with [s; i; n] -> EStep (zi (ios s), zi (ios i), zi (ios n)) | _ -> failwith "unit")
+  | 'k' -> (match split '.' rest with [cid; i; n] -> EConn (n_of_int (ios cid), zi (ios i), zi (ios n)) | _ -> failwith "unit")
   | _ -> failwith ("unit " ^ u)
 
 let kind_of = function
@@ -88,5 +90,10 @@ let parse_op (op : ostring) : eop =
      | ["lose"; pu] -> (match split '/' pu with [i; u] -> OLose (zi (ios i), unit_of u) | _ -> failwith "lose")
      | ["rw"; u; pos] -> ORewind (unit_of u, nat_of_int (ios pos))
      | ["dup"; i] -> ODup (nat_of_int (ios i))
+     | ["cs"; cid; hexid; fid] ->
+       (* the event ID the engine derives from the connector event's ID string: int64(fnv64(ID)), by the Coq model of FNV-1 *)
+       let sid = string_of_hex hexid in
+       let bytes = List.init (String.length sid) (fun i -> n_of_int (Char.code sid.[i])) in
+       OConnSend (n_of_int (ios cid), conn_event_id bytes, n_of_int (ios fid))
      | _ -> failwith ("op " ^ op))
 
